@@ -69,7 +69,10 @@ const (
 // machine down. The largest honest call costs ~25 ms CPU and ~4 MB.
 var guardBudget = core.Budget{Alloc: 512 << 20}
 
-const callCPULimit = 3 * time.Second // process CPU spent inside one repository call before the shard gives up
+const (
+	callCPULimit  = 3 * time.Second  // process CPU spent inside one repository call before the shard gives up
+	batchCPULimit = 90 * time.Second // same for one batch of concurrent calls (bounded to ~32 MiB of hashing, well under 1 s)
+)
 
 func procCPU() int64 {
 	var ru syscall.Rusage
@@ -83,6 +86,7 @@ func procCPU() int64 {
 // restarting after every such case would take hours when a defect makes most calls loop.
 type breaker struct {
 	start atomic.Int64 // process CPU at call start | 1; 0 = idle
+	limit atomic.Int64 // 0 = callCPULimit
 	cas   atomic.Int64
 	entry atomic.Value
 	gen   atomic.Value
@@ -92,13 +96,17 @@ func (b *breaker) watch(c *core.Ctx) {
 	for {
 		time.Sleep(100 * time.Millisecond)
 		s := b.start.Load()
-		if s == 0 || procCPU()-s < int64(callCPULimit) {
+		lim := b.limit.Load()
+		if lim == 0 {
+			lim = int64(callCPULimit)
+		}
+		if s == 0 || procCPU()-s < lim {
 			continue
 		}
 		entry, _ := b.entry.Load().(string)
 		gen, _ := b.gen.Load().(string)
 		c.Violate(core.Violation{Kind: "budget-cpu", Entry: entry, Site: entry, Gen: gen, Case: int(b.cas.Load()),
-			Detail: fmt.Sprintf("call did not return within %v of CPU time (honest calls take ~25 ms); the shard stops here, later cases are unobserved", callCPULimit)})
+			Detail: fmt.Sprintf("call did not return within %v of CPU time (honest calls take ~25 ms); the shard stops here, later cases are unobserved", time.Duration(lim))})
 		c.Note("a shard stopped early after a repository call that did not return")
 		c.Finish()
 		os.Exit(0)
